@@ -16,7 +16,7 @@ import (
 // the replica set's recorded hash (which is the hash of its template), whatever else is stamped on
 // the pod — the node-override hash goes under its own key and only when the node carries overrides.
 func ZZ_C13_podHashStamp() {
-	in := zzC10Pick()
+	in := zzC10Pick(true)
 	rs, node, setting := zzC10Build(in)
 	// the recorded hash of the replica set is the hash of its template
 	h, herr := comparison.GenerateMD5PodTemplateSpec(&rs.Spec.Template)
